@@ -99,6 +99,21 @@ for x in %(items2)r:
     c2.send(x)
 c2.close()
 """
+W_SENDONLY_ROUNDTRIP = """
+import evh.pair as _p
+x = channel.receive()
+def cb(v, tag=%(tag)r):
+    _p.CURRENT.worker_notes.append((tag, 'wcb', v))
+x.setcallback(cb, endmarker='W-END')
+del x                                     # only the callback registration remains: the creator's end is send-only from now on
+channel.send('dropped')
+y = channel.receive()                     # the creator sends its channel a second time: adopted again here
+channel.send(y)                           # ... and back it goes
+channel.receive()
+y.send('from-worker')
+del y
+channel.receive()
+"""
 W_CONSUME = """
 got = []
 for i in range(%(n)d):
@@ -229,6 +244,8 @@ def gen_conversation(rng, kinds, tag):
             c["stderr"] = "closed"
     elif kind == "both_drop_cb":
         c["items"] = gen_items(rng, rng.randint(0, 3), big=False)
+    elif kind == "sendonly_roundtrip":
+        pass
     elif kind == "callback_readopted":
         c["items"] = gen_items(rng, rng.randint(0, 3), big=False)
         c["items2"] = gen_items(rng, rng.randint(1, 3), big=False)
@@ -270,6 +287,8 @@ def worker_source(c):
         return W_CONSUME_UNTIL_EOF % {"tag": c["tag"]}
     if k == "callback_raises":
         return W_CALLBACK_RAISES % {"tag": c["tag"], "bad": c["bad"], "keep": c["keep"], "raise_": CB_RAISES[c.get("exc", "plain")]}
+    if k == "sendonly_roundtrip":
+        return W_SENDONLY_ROUNDTRIP % {"tag": c["tag"]}
     if k == "callback_readopted":
         return W_CALLBACK_READOPTED % {"items": c["items"], "items2": c["items2"]}
     if k == "both_drop_cb":
@@ -574,6 +593,37 @@ def run_program(prog, chooser, seed, line_budget=0, cut_w2i=None, remote_backend
                 o["outer"] = "closed"
             except Exception as e:  # noqa
                 o["outer"] = type(e).__name__
+        elif k == "sendonly_roundtrip":
+            # a channel of this side in the send-only state (the peer keeps only a callback for it) travels to the peer again and
+            # comes back: it arrives as an OPEN channel object connected to the same conversation, in both directions
+            try:
+                mine = gw.newchannel()
+                o["subid"] = mine.id
+                ch.send(mine)
+                o["dropped"] = ch.receive(timeout=20)
+                pr.em_i.sleep(0.3)                       # the peer's LAST_MESSAGE has arrived: send-only
+                ch.send(mine)
+                back = ch.receive(timeout=20)
+                o["back"] = [type(back).__name__, getattr(back, "id", None) == mine.id, bool(getattr(back, "isclosed", lambda: True)())]
+                mine.send("one")
+                ch.send("go")
+                try:
+                    o["got"] = back.receive(timeout=20)
+                except Exception as e:  # noqa
+                    o["got"] = "EXC:" + type(e).__name__
+                try:
+                    back.send("two")
+                    o["send_back"] = "ok"
+                except Exception as e:  # noqa
+                    o["send_back"] = "EXC:" + type(e).__name__
+                pr.em_i.sleep(0.3)
+                back.close()
+                ch.send("end")
+                ch.waitclose(timeout=20)
+                o["end"] = "closed"
+            except Exception as e:  # noqa
+                o["end"] = type(e).__name__ + ":" + str(e)[:60]
+            mine = back = None
         elif k == "callback_readopted":
             # a callback stays registered for an id whose Channel object is dropped; the peer hands the channel back inside an
             # item, so a new object for the same id appears here: the callback still gets every item, then its endmarker
@@ -899,6 +949,11 @@ def check_conversation(ck, prefix, c, o, out, ex, lossy=False):
             own = [n[2] for n in out["worker_notes"] if n[0] == c["tag"] and n[1] == "own"]
             if own != ["RemoteError"]:
                 ck.fail(prefix + "callback-error-failing-side-not-closed-with-RemoteError:" + str(own), ex)
+    elif k == "sendonly_roundtrip":
+        _t = lambda v: v.decode() if isinstance(v, bytes) else v   # noqa  (text arrives as bytes under a gateway reconfigured with py3str_as_py2str)
+        wcb = [_t(n[2]) for n in out["worker_notes"] if n[0] == c["tag"] and n[1] == "wcb"]
+        if o.get("end") != "closed" or o.get("back") != ["Channel", True, False] or _t(o.get("got")) != "from-worker" or o.get("send_back") != "ok" or wcb[:2] != ["one", "two"]:
+            ck.fail(prefix + "channel-over-channel-cross-connected-or-lossy:send-only-channel-came-back", {**ex, "worker_callback_saw": wcb})
     elif k == "callback_readopted":
         want = list(map(canon_item, c["items"] + c["items2"])) + [canon_item(("END",))]
         if o.get("end") != "closed" or o.get("again") != "Channel:True":
@@ -932,7 +987,7 @@ def check_conversation(ck, prefix, c, o, out, ex, lossy=False):
             ck.fail(prefix + "channel-id-parity-wrong", ex)
 
 
-ALL_KINDS = ["produce", "produce_raise", "consume", "consume_eof", "callback_raises", "subchannel", "halfclose", "subchannel_dropped", "both_drop_cb", "callback_readopted"]
+ALL_KINDS = ["produce", "produce_raise", "consume", "consume_eof", "callback_raises", "subchannel", "halfclose", "subchannel_dropped", "both_drop_cb", "callback_readopted", "sendonly_roundtrip"]
 
 
 def run_property(prop, tier, seed, replay, kinds_weight, prefix_filter, rule, assumptions, nprog_quick=140, extra=None):
